@@ -234,3 +234,87 @@ func VerifC20Cycle() {
 	}
 	zz.Reach("C20/cycle/done")
 }
+
+// VerifC20RemoteDelete: a remote deletion of one pair of a duplicate-keys DBI removes exactly that
+// pair from the application's DBI, also when the pair's value is longer than the room left in the
+// encoded key (the encoded key then carries only a prefix of the value).
+func VerifC20RemoteDelete() {
+	env := zz.NewEnv()
+	st := &vStore{}
+	s := vFullSyncer(env, st, "inst", false, func(c *config.Config, lc *config.LMDB, opt *Options) { lc.DupSortHack = true })
+	ctx := context.Background()
+	k := zz.NondetBytes("k", 1)
+	room := LMDBMaxKeySize - 1 - 5
+	vlens := []int{1, 2, room - 1, room, room + 1, room + 5}
+	vlen := vlens[zz.Choice("v1.len", len(vlens))]
+	v1 := make([]byte, vlen)
+	for i := range v1 {
+		v1[i] = 'v'
+	}
+	copy(v1, zz.NondetBytes("v1", 1))
+	v2 := zz.NondetBytes("v2", 1)
+	zz.Assume(!bytes.Equal(v1[:1], v2))
+	err := env.Update(func(txn *lmdb.Txn) error {
+		dbi, err := txn.OpenDBI("d", lmdb.Create|lmdb.DupSort)
+		if err != nil {
+			return err
+		}
+		if err := txn.Put(dbi, k, v1, 0); err != nil {
+			return err
+		}
+		return txn.Put(dbi, k, v2, 0)
+	})
+	if err != nil {
+		zz.Assert(false, "harness/setup")
+		return
+	}
+	zz.SetClock(1700000000000000000)
+	if _, err = s.SendOnce(ctx, env); err != nil {
+		zz.Reach("C20/remote-delete/refused")
+		return
+	}
+	_, blob := st.lastStored()
+	msg, derr := snapshot.LoadData(blob)
+	if derr != nil || len(msg.Databases) != 1 {
+		zz.Assert(false, "C20/snapshot/decodes")
+		return
+	}
+	// the remote instance's snapshot: the same DBI with the pair (k, v1) deleted later
+	src := msg.Databases[0]
+	src.ResetCursor()
+	var kvs []snapshot.KV
+	found := 0
+	for {
+		kv, nerr := src.Next()
+		if nerr != nil {
+			break
+		}
+		c := snapshot.KV{Key: append([]byte(nil), kv.Key...), Value: append([]byte(nil), kv.Value...), TimestampNano: kv.TimestampNano, Flags: kv.Flags}
+		if len(c.Value) == len(v1) && bytes.Equal(c.Value, v1) {
+			c.Value = nil
+			c.Flags = 1
+			c.TimestampNano = kv.TimestampNano + 1000
+			found++
+		}
+		kvs = append(kvs, c)
+	}
+	zz.Assert(found == 1 && len(kvs) == 2, "C20/remote-delete/snapshot-has-both-pairs")
+	if found != 1 {
+		return
+	}
+	snap := &snapshot.Snapshot{FormatVersion: 3, CompatVersion: 1}
+	snap.Databases = append(snap.Databases, vSnapDBI("d", src.Flags(), src.Transform(), kvs))
+	upd := snapshot.Update{Snapshot: snap, NameInfo: snapshot.NameInfo{Kind: snapshot.KindSnapshot, InstanceID: "other"}}
+	zz.SetClock(1700000001000000000)
+	_, _, err = s.LoadOnce(ctx, env, "other", upd, 0)
+	zz.Assert(err == nil, "C20/remote-delete/load-no-error")
+	if err != nil {
+		return
+	}
+	after, _ := zz.Dump(env, "d")
+	zz.Assert(len(after) == 1, "C20/remote-delete/exactly-the-deleted-pair-removed")
+	if len(after) == 1 {
+		zz.Assert(bytes.Equal(after[0].K, k) && bytes.Equal(after[0].V, v2), "C20/remote-delete/other-pair-kept")
+	}
+	zz.Reach("C20/remote-delete/done")
+}
